@@ -766,6 +766,14 @@ class ExprMixin(object):
                     return r if sym == "==" else mk_not(r)
             pa = self.to_poly(st, a, node, module)
             pb = self.to_poly(st, b, node, module)
+            # Decimal against float: Python compares the exact values, and a float literal such as
+            # 3.9 is its binary double (slightly below 3.9), not the decimal text
+            if pa.kind == "dec" and pb.kind == "flt" and pb.is_const():
+                self.event("decimal_float_compare", node, module, st)
+                pb = P.const(Fraction(float(pb.const_value())), "flt")
+            elif pb.kind == "dec" and pa.kind == "flt" and pa.is_const():
+                self.event("decimal_float_compare", node, module, st)
+                pa = P.const(Fraction(float(pa.const_value())), "flt")
             return T.mk_cmp(sym, pa, pb)
         if sym in ("==", "!="):
             def seq_items(x):
@@ -820,6 +828,20 @@ class ExprMixin(object):
             return Const(a.id == b.id)
         if isinstance(a, Const) and isinstance(b, Const) and isinstance(a.v, bool) and isinstance(b.v, bool):
             return Const(a.v is b.v)
+        def valueish(x):
+            return (isinstance(x, Const) and isinstance(x.v, (str, int, float, Num, tuple)) and not isinstance(x.v, bool)) or (
+                isinstance(x, Fin) and all(isinstance(v_, (str, int, Num)) and not isinstance(v_, bool) for v_ in x.table.values())
+            ) or isinstance(x, P) or (isinstance(x, App) and x.op in ("cat", "str", "join"))
+
+        if valueish(a) or valueish(b):
+            # identity of strings / numbers: decided by whether two equal values happen to be one
+            # object (interning, small-integer cache), not by the values
+            self.event("value_identity", node, module, st, what="`is` between values (%s)" % short(node))
+            deps = set()
+            for x in (a, b):
+                if isinstance(x, Term):
+                    deps |= deps_of(x)
+            return Opaque("identity:%s" % short(node, 40), deps)
         raise AnalysisError("E5.cmp", "identity test on %r / %r" % (a, b), node, module)
 
     def is_none(self, st, v):
